@@ -6,8 +6,9 @@
    environment event, then internal events (in the priority order of [candidates]) until none is
    enabled ([quiesce]). Observations are read off the model state by comparing it before and after
    the step. Where the outcome depends on an order the Go runtime does not fix (two goroutines
-   contending for the mutex with an observable difference; two keys due at the same instant) the
-   run is flagged and only the spec oracle is applied. *)
+   contending for the mutex with an observable difference; two keys due at the same instant; Close
+   closing closeCh while a value is on its way to a reading consumer) the run is flagged and only
+   the spec oracle is applied. *)
 From Kit Require Export C10.Model C10.Spec Lib.CheckLib.
 
 Inductive case := Case (interval : Z) (script : list op) (observed : obs).
@@ -32,12 +33,23 @@ Definition order_dependent (s : st) (e : ev) : bool :=
   | _ => false
   end.
 
-Fixpoint quiesce_amb (fuel : nat) (vr : variant) (iv : Z) (s : st) (amb : bool) : st * bool :=
+(* A value on its way to a reading consumer while Close is about to close closeCh: the forwarder's
+   selects choose at random between handing it over and dropping it. In the priority schedule the
+   forwarders run first, so the race shows as "CloseLock fires in a phase in which a forwarder
+   moved a value". *)
+Definition is_move (e : ev) : bool :=
+  match e with FwdTake _ | FwdDeliver _ => true | _ => false end.
+Definition is_closelock (e : ev) : bool :=
+  match e with CloseLock => true | _ => false end.
+
+Fixpoint quiesce_amb (fuel : nat) (vr : variant) (iv : Z) (s : st) (amb moved : bool) : st * bool :=
   match fuel with
   | O => (s, amb)
   | S f => match first_enabled vr iv s with
            | Some e => match step vr iv s e with
-                       | Some s' => quiesce_amb f vr iv s' (amb || order_dependent s e)
+                       | Some s' => quiesce_amb f vr iv s'
+                                      (amb || order_dependent s e || (is_closelock e && moved))
+                                      (moved || is_move e)
                        | None => (s, amb)
                        end
            | None => (s, amb)
@@ -112,7 +124,7 @@ Definition drive_step (vr : variant) (iv : Z) (d : drv) (n : Z) (o : op) : drv :
   | None => mkDrv s0 (d_close d) (d_amb d) true (d_obs d)
   | Some s_env =>
       let close_id := match o with OClose => Some n | _ => d_close d end in
-      let '(s1, amb) := quiesce_amb (measure s_env) vr iv s_env (d_amb d) in
+      let '(s1, amb) := quiesce_amb (measure s_env) vr iv s_env (d_amb d) false in
       mkDrv s1 close_id amb (d_bad d)
             (d_obs d ++ sub_events n (subs s0) (subs s1) ++ done_events n o close_id s0 s_env s1)
   end.
